@@ -777,6 +777,25 @@ func (w *c15World) action() {
 			p = w.payload(fmt.Sprintf("r%d", cl.id), 700)
 			c.Fault("client-stops-reading")
 		}
+		if cl.stalled && w.wb == 0 {
+			return // (another reply to it would block this goroutine as well)
+		}
+		if owed && w.wb == 0 && !cl.stalled && !w.closing && t.Bias(1, 8, "client-stalls-unbuffered") {
+			// without a write buffer the reply to a client that has stopped reading blocks its writer (here: a
+			// goroutine of the application) in the socket. That is this client's problem only: other clients of
+			// the ufrag still attach and are served, and Close / RemoveConnByUfrag / expiry still return
+			cl.stalled = true
+			w.mu.Lock()
+			cl.gate = make(chan struct{})
+			w.mu.Unlock()
+			c.Defer(func() { close(cl.gate) })
+			cl.conn.SetRecvCap(8)
+			big := w.payload(fmt.Sprintf("r%d", cl.id), 700)
+			go func() { _, _ = h.conn.WriteTo(big, cl.addr) }()
+			synctest.Wait()
+			c.Fault("client-stops-reading-writer-blocked")
+			return
+		}
 		var n int
 		var err error
 		done, pv := tsCall(func() { n, err = h.conn.WriteTo(p, cl.addr) })
